@@ -13,6 +13,7 @@ Part E  incompatible grids are rejected.
 -/
 import OdcGeo.Model.C16
 import OdcGeo.Lemmas.C16
+import OdcGeo.Lemmas.C16Grid
 import OdcGeo.Spec.PySlice
 import Mathlib.Order.Defs.LinearOrder
 import Mathlib.Order.Lattice
@@ -235,35 +236,18 @@ end BBoxLaws
 
 The family of a base grid `g0` ("derived from a base grid by integer pixel shifts and arbitrary
 shapes"): `onGrid g0 r` is `g0` shifted so that it covers the index rectangle `r` of `g0`'s pixel
-frame.  `g0` may be any GeoBox with an invertible affine: north-up, mirrored, rotated, sheared. -/
+frame.  `g0` may be any GeoBox with an invertible affine: north-up, mirrored, rotated, sheared.
 
-/-- integer pixel rectangle: columns `x0 ≤ i < x1`, rows `y0 ≤ j < y1` -/
-structure Rect where
-  x0 : Int
-  y0 : Int
-  x1 : Int
-  y1 : Int
-  deriving DecidableEq
-
-/-- member of the family of `g0` covering `r` -/
-def onGrid (g0 : GeoBox) (r : Rect) : GeoBox :=
-  ⟨r.y1 - r.y0, r.x1 - r.x0, g0.aff * Aff.translation r.x0 r.y0, g0.crs⟩
-
-/-- shapes are non-negative -/
-def Rect.Valid (r : Rect) : Prop := r.x0 ≤ r.x1 ∧ r.y0 ≤ r.y1
-/-- at least one pixel -/
-def Rect.NonEmpty (r : Rect) : Prop := r.x0 < r.x1 ∧ r.y0 < r.y1
-
-/-- smallest rectangle containing both -/
-def Rect.union (r s : Rect) : Rect := ⟨min r.x0 s.x0, min r.y0 s.y0, max r.x1 s.x1, max r.y1 s.y1⟩
-
-/-- common pixels; a missing overlap on an axis gives a zero extent at `max` of the starts -/
-def Rect.inter (r s : Rect) : Rect :=
-  ⟨max r.x0 s.x0, max r.y0 s.y0, max (max r.x0 s.x0) (min r.x1 s.x1), max (max r.y0 s.y0) (min r.y1 s.y1)⟩
-
-/-- The world position (corner) of a pixel identifies it on a common grid: `w` is a pixel of `g`. -/
-def HasPixel (g : GeoBox) (w : Rat × Rat) : Prop :=
-  ∃ i j : Int, 0 ≤ i ∧ i < g.nx ∧ 0 ≤ j ∧ j < g.ny ∧ g.aff.apply ((i : Rat), (j : Rat)) = w
+Vocabulary (defined in `Lemmas/C16Grid.lean`, restated here):
+  `Rect`                 integer pixel rectangle `x0 ≤ i < x1`, `y0 ≤ j < y1` of `g0`'s index frame
+  `onGrid g0 r`          `⟨r.y1 - r.y0, r.x1 - r.x0, g0.aff * Aff.translation r.x0 r.y0, g0.crs⟩`
+  `Rect.Valid/NonEmpty`  `x0 ≤ x1 ∧ y0 ≤ y1` / `x0 < x1 ∧ y0 < y1`
+  `Rect.union r s`       `⟨min x0, min y0, max x1, max y1⟩`
+  `Rect.inter r s`       `⟨max x0, max y0, max (max x0) (min x1), max (max y0) (min y1)⟩`
+  `Rect.rawInter`, `Rect.norm`   the same in two steps (n-ary form: fold, then normalise once)
+  `HasPixel g w`         `∃ i j : Int, 0 ≤ i < g.nx ∧ 0 ≤ j < g.ny ∧ g.aff.apply (i, j) = w`
+                         (on a common grid a pixel is identified by the world position of its corner)
+-/
 
 /-- Every GeoBox that is `g0` shifted by whole pixels (same CRS) is a member of the family. -/
 theorem eq_onGrid (g0 g : GeoBox) (tx ty : Int) (h : g.aff = g0.aff * Aff.translation tx ty)
@@ -277,45 +261,6 @@ theorem eq_onGrid (g0 g : GeoBox) (tx ty : Int) (h : g.aff = g0.aff * Aff.transl
 theorem self_onGrid (g : GeoBox) : g = onGrid g ⟨0, 0, g.nx, g.ny⟩ := by
   have := eq_onGrid g g 0 0 (by simp [translation_zero, Aff.mul_id]) rfl
   simpa using this
-
-theorem hasPixel_onGrid (g0 : GeoBox) (r : Rect) (w : Rat × Rat) :
-    HasPixel (onGrid g0 r) w ↔
-      ∃ i j : Int, r.x0 ≤ i ∧ i < r.x1 ∧ r.y0 ≤ j ∧ j < r.y1 ∧ g0.aff.apply ((i : Rat), (j : Rat)) = w := by
-  simp only [HasPixel, onGrid, apply_mul_translation]
-  constructor
-  · rintro ⟨i, j, h1, h2, h3, h4, h5⟩
-    refine ⟨i + r.x0, j + r.y0, by omega, by omega, by omega, by omega, ?_⟩
-    push_cast
-    exact h5
-  · rintro ⟨i, j, h1, h2, h3, h4, h5⟩
-    refine ⟨i - r.x0, j - r.y0, by omega, by omega, by omega, by omega, ?_⟩
-    push_cast
-    rw [← h5]
-    congr 2 <;> ring
-
-/-- `bounding_box_in_pixel_domain` between two members of a family -/
-theorem bbpd_onGrid (g0 : GeoBox) (hdet : g0.aff.det ≠ 0) (r s : Rect) (tol : Rat) (htol : 0 < tol) :
-    bboxInPixelDomain (onGrid g0 s) (onGrid g0 r) tol =
-      .ok ⟨s.x0 - r.x0, s.y0 - r.y0, s.x0 - r.x0 + (s.x1 - s.x0), s.y0 - r.y0 + (s.y1 - s.y0), none⟩ := by
-  refine bboxInPixelDomain_of_mul (onGrid g0 s) (onGrid g0 r) rfl ?_ (s.x0 - r.x0) (s.y0 - r.y0) ?_ tol htol
-  · simpa [onGrid, det_mul_translation] using hdet
-  · simp only [onGrid]
-    rw [Aff.mul_assoc', translation_mul_translation]
-    congr 2 <;> push_cast <;> ring
-
-theorem geoboxOfPixBBox_onGrid (g0 : GeoBox) (r : Rect) (bb : BBox Int) :
-    geoboxOfPixBBox (onGrid g0 r) bb =
-      onGrid g0 ⟨r.x0 + bb.left, r.y0 + bb.bottom, r.x0 + bb.right, r.y0 + bb.top⟩ := by
-  simp only [geoboxOfPixBBox, onGrid, GeoBox.mk.injEq]
-  refine ⟨by omega, by omega, ?_, trivial⟩
-  rw [Aff.mul_assoc', translation_mul_translation]
-  congr 2 <;> push_cast <;> ring
-
-theorem normEmpty_eq (bb : BBox Int) :
-    normEmpty bb = ⟨bb.left, bb.bottom, max bb.left bb.right, max bb.bottom bb.top, bb.crs⟩ := by
-  obtain ⟨l, b, r, t, c⟩ := bb
-  unfold normEmpty
-  by_cases h1 : l > r <;> by_cases h2 : b > t <;> simp [h1, h2] <;> omega
 
 /-- `a | b` on a common grid is the member of the family covering the smallest rectangle that
 contains both — whichever operand is the reference. -/
@@ -338,20 +283,6 @@ theorem and_onGrid (g0 : GeoBox) (hdet : g0.aff.det ≠ 0) (r s : Rect) :
   congr 2
   simp only [Rect.mk.injEq]
   omega
-
-/-- index form of pixel membership (needs an invertible grid so that world positions identify pixels) -/
-theorem hasPixel_idx (g0 : GeoBox) (hdet : g0.aff.det ≠ 0) (t : Rect) (i j : Int) :
-    HasPixel (onGrid g0 t) (g0.aff.apply ((i : Rat), (j : Rat))) ↔
-      t.x0 ≤ i ∧ i < t.x1 ∧ t.y0 ≤ j ∧ j < t.y1 := by
-  rw [hasPixel_onGrid]
-  constructor
-  · rintro ⟨i', j', h1, h2, h3, h4, h5⟩
-    have := apply_injective g0.aff hdet h5
-    simp only [Prod.mk.injEq, Int.cast_inj] at this
-    obtain ⟨rfl, rfl⟩ := this
-    exact ⟨h1, h2, h3, h4⟩
-  · rintro ⟨h1, h2, h3, h4⟩
-    exact ⟨i, j, h1, h2, h3, h4, rfl⟩
 
 /-- **Intersection is exactly the set of shared pixels** (an empty GeoBox when there are none;
 never a negative shape). -/
@@ -711,6 +642,25 @@ theorem incompatible_rejected (g ref : GeoBox) (tol : Rat) (bb : BBox Int)
     exact ⟨c1, c2, c3, c6, c4, c5, isAlmostInt_near _ _ c7, isAlmostInt_near _ _ c8⟩
   · cases h
 
+/-- **Compatible ⇒ accepted, and treated as the whole-pixel shift.**  A grid within `tol ≤ 1/2` px
+of a whole-pixel shift `(kx, ky)` of `ref` is accepted and handled exactly as that shift (the
+converse of `incompatible_rejected` for grids of equal pixel size and orientation). -/
+theorem compatible_accepted (g ref : GeoBox) (hcrs : g.crs = ref.crs) (hdet : ref.aff.det ≠ 0)
+    (kx ky : Int) (ex ey tol : Rat) (h : g.aff = ref.aff * Aff.translation (kx + ex) (ky + ey))
+    (hx : |ex| < tol) (hy : |ey| < tol) (htol : tol ≤ 1 / 2) :
+    bboxInPixelDomain g ref tol = .ok ⟨kx, ky, kx + g.nx, ky + g.ny, none⟩ := by
+  unfold bboxInPixelDomain
+  rw [pixelTranslation_of_mul g ref hcrs hdet _ _ h]
+  have ax : isAlmostInt ((kx : Rat) + ex) tol = true :=
+    isAlmostInt_of_near _ _ kx (by rwa [add_sub_cancel_left])
+  have ay : isAlmostInt ((ky : Rat) + ey) tol = true :=
+    isAlmostInt_of_near _ _ ky (by rwa [add_sub_cancel_left])
+  have rx : pyRound ((kx : Rat) + ex) = kx :=
+    pyRound_near _ _ (by rw [add_sub_cancel_left]; linarith)
+  have ry : pyRound ((ky : Rat) + ey) = ky :=
+    pyRound_near _ _ (by rw [add_sub_cancel_left]; linarith)
+  simp [ax, ay, rx, ry]
+
 /-- A grid that differs from `ref` by the pixel-space transform `M` (`g.affine = ref.affine * M`)
 with `M` outside the thresholds is rejected with `ValueError`. -/
 theorem relative_transform_rejected (g ref : GeoBox) (M : Aff) (hdet : ref.aff.det ≠ 0)
@@ -775,47 +725,6 @@ theorem crs_mismatch_rejected (a b : GeoBox) (hc : a.crs ≠ b.crs) (tol : Rat) 
 
 /-! ## Part B′ — the n-ary forms `geobox_union_conservative`, `geobox_intersection_conservative` -/
 
-/-- pixel-domain box of `s` relative to the reference `r` -/
-def relBB (r s : Rect) : BBox Int :=
-  ⟨s.x0 - r.x0, s.y0 - r.y0, s.x0 - r.x0 + (s.x1 - s.x0), s.y0 - r.y0 + (s.y1 - s.y0), none⟩
-
-/-- edge-wise `max`/`min` without the empty normalisation -/
-def Rect.rawInter (r s : Rect) : Rect := ⟨max r.x0 s.x0, max r.y0 s.y0, min r.x1 s.x1, min r.y1 s.y1⟩
-/-- "standardise empty geobox representation" -/
-def Rect.norm (r : Rect) : Rect := ⟨r.x0, r.y0, max r.x0 r.x1, max r.y0 r.y1⟩
-/-- index membership -/
-def Rect.Has (r : Rect) (i j : Int) : Prop := r.x0 ≤ i ∧ i < r.x1 ∧ r.y0 ≤ j ∧ j < r.y1
-
-theorem allBBoxes_onGrid (g0 : GeoBox) (hdet : g0.aff.det ≠ 0) (r : Rect) (ss : List Rect) :
-    allBBoxes (onGrid g0 r) tolPix (ss.map (onGrid g0)) = .ok (ss.map (relBB r)) := by
-  induction ss with
-  | nil => rfl
-  | cons s ss ih =>
-    simp only [List.map, allBBoxes, bbpd_onGrid g0 hdet _ _ _ tolPix_pos, ih]
-    rfl
-
-theorem foldRes_union_rel (r acc : Rect) (ss : List Rect) :
-    foldRes unionStep (relBB r acc) (ss.map (relBB r)) = .ok (relBB r (ss.foldl Rect.union acc)) := by
-  induction ss generalizing acc with
-  | nil => rfl
-  | cons s ss ih =>
-    have step : unionStep (relBB r acc) (relBB r s) = .ok (relBB r (acc.union s)) := by
-      simp only [unionStep, relBB, Rect.union, ne_eq, not_true_eq_false, if_false, Except.ok.injEq,
-        BBox.mk.injEq, and_true]
-      omega
-    simp only [List.map, foldRes, step, List.foldl, ih]
-
-theorem foldRes_inter_rel (r acc : Rect) (ss : List Rect) :
-    foldRes interStep (relBB r acc) (ss.map (relBB r)) = .ok (relBB r (ss.foldl Rect.rawInter acc)) := by
-  induction ss generalizing acc with
-  | nil => rfl
-  | cons s ss ih =>
-    have step : interStep (relBB r acc) (relBB r s) = .ok (relBB r (acc.rawInter s)) := by
-      simp only [interStep, relBB, Rect.rawInter, ne_eq, not_true_eq_false, if_false, Except.ok.injEq,
-        BBox.mk.injEq, and_true]
-      omega
-    simp only [List.map, foldRes, step, List.foldl, ih]
-
 /-- n-ary union of members of a family (first member is the reference) -/
 theorem union_list_onGrid (g0 : GeoBox) (hdet : g0.aff.det ≠ 0) (r : Rect) (ss : List Rect) :
     geoboxUnionConservative ((r :: ss).map (onGrid g0)) = .ok (onGrid g0 (ss.foldl Rect.union r)) := by
@@ -843,45 +752,6 @@ theorem inter_list_onGrid (g0 : GeoBox) (hdet : g0.aff.det ≠ 0) (r : Rect) (ss
   refine congrArg Except.ok (congrArg (onGrid g0) ?_)
   simp only [Rect.mk.injEq]
   omega
-
-theorem foldl_rawInter_has (acc : Rect) (ss : List Rect) (i j : Int) :
-    (ss.foldl Rect.rawInter acc).Has i j ↔ acc.Has i j ∧ ∀ s ∈ ss, s.Has i j := by
-  induction ss generalizing acc with
-  | nil => simp
-  | cons s ss ih =>
-    simp only [List.foldl, ih, List.forall_mem_cons]
-    simp only [Rect.Has, Rect.rawInter]
-    constructor
-    · rintro ⟨h, h'⟩; exact ⟨by omega, by omega, h'⟩
-    · rintro ⟨h, h', h''⟩; exact ⟨by omega, h''⟩
-
-theorem foldl_union_spec (acc : Rect) (ss : List Rect) :
-    (∀ s ∈ acc :: ss, ∀ i j, s.Has i j → (ss.foldl Rect.union acc).Has i j) ∧
-    (∀ t : Rect, (∀ s ∈ acc :: ss, t.x0 ≤ s.x0 ∧ t.y0 ≤ s.y0 ∧ s.x1 ≤ t.x1 ∧ s.y1 ≤ t.y1) →
-      t.x0 ≤ (ss.foldl Rect.union acc).x0 ∧ t.y0 ≤ (ss.foldl Rect.union acc).y0 ∧
-      (ss.foldl Rect.union acc).x1 ≤ t.x1 ∧ (ss.foldl Rect.union acc).y1 ≤ t.y1) := by
-  induction ss generalizing acc with
-  | nil => simp
-  | cons s ss ih =>
-    obtain ⟨ih1, ih2⟩ := ih (acc.union s)
-    simp only [List.foldl]
-    constructor
-    · intro u hu i j hij
-      rcases List.mem_cons.mp hu with rfl | hu
-      · apply ih1 (u.union s) (List.mem_cons_self ..)
-        simp only [Rect.Has, Rect.union] at hij ⊢; omega
-      rcases List.mem_cons.mp hu with rfl | hu
-      · apply ih1 (acc.union u) (List.mem_cons_self ..)
-        simp only [Rect.Has, Rect.union] at hij ⊢; omega
-      · exact ih1 u (List.mem_cons_of_mem _ hu) i j hij
-    · intro t ht
-      apply ih2
-      intro u hu
-      rcases List.mem_cons.mp hu with rfl | hu
-      · have a := ht acc (by simp)
-        have b := ht s (by simp)
-        simp only [Rect.union]; omega
-      · exact ht u (by simp [hu])
 
 /-- **n-ary intersection = exactly the pixels common to all operands** -/
 theorem inter_list_pixels (g0 : GeoBox) (hdet : g0.aff.det ≠ 0) (r : Rect) (ss : List Rect) :
@@ -943,6 +813,61 @@ theorem union_list_eq_fold (g0 : GeoBox) (hdet : g0.aff.det ≠ 0) (r s : Rect) 
   rw [union_list_onGrid g0 hdet r (s :: ss), or_onGrid g0 hdet]
   simp only [bind, Except.bind, List.foldl]
   exact (union_list_onGrid g0 hdet (r.union s) ss).symm
+
+/-- the n-ary intersection is the left fold of the binary `&` too (intermediate empty results are
+normalised, the final result is the same GeoBox) -/
+theorem inter_list_eq_fold (g0 : GeoBox) (hdet : g0.aff.det ≠ 0) (r s : Rect) (ss : List Rect) :
+    geoboxIntersectionConservative ((r :: s :: ss).map (onGrid g0)) =
+      ((onGrid g0 r).and (onGrid g0 s) >>= fun x => geoboxIntersectionConservative (x :: ss.map (onGrid g0))) := by
+  have key : ∀ (ss : List Rect) (t t' : Rect), t.norm = t'.norm →
+      (ss.foldl Rect.rawInter t).norm = (ss.foldl Rect.rawInter t').norm := by
+    intro ss
+    induction ss with
+    | nil => intro t t' h; exact h
+    | cons u us ih =>
+      intro t t' h
+      simp only [List.foldl]
+      apply ih
+      simp only [Rect.norm, Rect.rawInter, Rect.mk.injEq] at h ⊢
+      omega
+  rw [inter_list_onGrid g0 hdet r (s :: ss), and_onGrid g0 hdet]
+  simp only [bind, Except.bind, List.foldl]
+  rw [show (onGrid g0 (r.inter s) :: ss.map (onGrid g0)) = ((r.inter s) :: ss).map (onGrid g0) from rfl,
+    inter_list_onGrid g0 hdet (r.inter s) ss]
+  congr 2
+  apply key
+  simp only [Rect.norm, Rect.rawInter, Rect.inter, Rect.mk.injEq]
+  refine ⟨trivial, trivial, ?_, ?_⟩ <;> omega
+
+/-- the n-ary intersection is an empty GeoBox exactly when no pixel is common to all operands, and
+never has a negative shape -/
+theorem inter_list_empty_iff (g0 : GeoBox) (hdet : g0.aff.det ≠ 0) (r : Rect) (ss : List Rect) :
+    ∃ g, geoboxIntersectionConservative ((r :: ss).map (onGrid g0)) = .ok g ∧ 0 ≤ g.nx ∧ 0 ≤ g.ny ∧
+      (g.isEmpty = true ↔ ¬ ∃ w, ∀ s ∈ r :: ss, HasPixel (onGrid g0 s) w) := by
+  obtain ⟨g, hg, hpix⟩ := inter_list_pixels g0 hdet r ss
+  have hg' := inter_list_onGrid g0 hdet r ss
+  rw [hg] at hg'
+  cases hg'
+  refine ⟨_, hg, ?_, ?_, ?_⟩
+  · simp only [onGrid, Rect.norm]; omega
+  · simp only [onGrid, Rect.norm]; omega
+  · generalize hU : (List.foldl Rect.rawInter r ss).norm = U at *
+    have hv : U.x0 ≤ U.x1 ∧ U.y0 ≤ U.y1 := by
+      rw [← hU]; simp only [Rect.norm]; omega
+    simp only [GeoBox.isEmpty, Bool.or_eq_true, beq_iff_eq]
+    have e1 : (onGrid g0 U).ny = U.y1 - U.y0 := rfl
+    have e2 : (onGrid g0 U).nx = U.x1 - U.x0 := rfl
+    rw [e1, e2]
+    constructor
+    · rintro h ⟨w, hw⟩
+      obtain ⟨i, j, h1, h2, h3, h4, _⟩ := (hasPixel_onGrid _ _ _).mp ((hpix w).mpr hw)
+      omega
+    · intro h
+      by_contra hne
+      apply h
+      refine ⟨g0.aff.apply ((U.x0 : Rat), (U.y0 : Rat)), (hpix _).mp ?_⟩
+      rw [hasPixel_idx g0 hdet]
+      omega
 
 /-! ## witnesses: the defect repaired in `overlap_roi`, `round`, non-vacuity -/
 
